@@ -39,6 +39,7 @@ def c05(tier, seed):
 
 
 ENGINES = {
+    "views": ({"C02"}, "borrowed views: address/extent, write-through, slice reinterpretation outcome matrix, by-value conversions"),
     "heap": ({"C15", "C16"}, "alloc-feature operations under a recording allocator; panic and allocation-failure injection; small-stack children"),
     "collect": ({"C07"}, "collecting forms vs scripted sources (poll/hint logs)"),
     "history": ({"C03"}, "random chained ownership histories over a typed pool vs shadow Vec model + ledger"),
@@ -144,7 +145,44 @@ def c16(tier, seed):
     ]
 
 
+VIEWS = "u8,u32,Tok,Tok24,ZTok,()"
+
+
+def c02(tier, seed):
+    if tier == "quick":
+        return [
+            Run("views", "debug", ["--flavours", VIEWS], shards=4),
+            Run("views", "miri", ["--flavours", "HeapTok,ZTok,u8,u32", "--maxn", "17"], shards=16, label="views/miri(N<=17)"),
+        ]
+    return [
+        Run("views", "debug", ["--flavours", VIEWS], shards=8),
+        Run("views", "release", ["--flavours", VIEWS], shards=8),
+        Run("views", "miri", ["--flavours", "HeapTok,ZTok,u8,u32,Tok24,()", "--maxn", "65"], shards=32, label="views/miri(N<=65)"),
+        Run("views", "miri-sb", ["--flavours", "u8,ZTok", "--maxn", "17"], shards=8, label="views/miri-stacked-borrows(advisory)", advisory=True),
+        Run("views", "asan", ["--flavours", "HeapTok,u8,u32,()"], shards=8),
+    ]
+
+
 SPECS = {
+    "C02": dict(
+        engine="views",
+        technique="address/extent monitor on every returned reference + write-through/read-back across all views with canaries + outcome matrix for slice reinterpretation; ledger for by-value conversions; Miri/ASan",
+        level="exploration",
+        level_text=("For every N in the lattice (0..=13, 15..17, 24, 31..33, 63..65, 100, 127..129, 255..257; 511..1024 in thorough) and six element "
+                    "flavours: every view (as_slice, Deref, AsRef/AsMut/Borrow to [T] and [T;N], From<&[T;N]>, by-reference iteration) is checked "
+                    "for start address, count, size_of_val and order; every mutable view writes at every index and every shared view must read it "
+                    "back, with canaries around the storage; from_slice/from_mut_slice/try_*/TryFrom are called with every L in 0..=N+3 (N<=8) "
+                    "or N-2..N+2, 2N, 2N+1 and must accept exactly L = N, aliasing the source; by-value [T;N] and tuple (1..=12) conversions keep "
+                    "identities in place with the ledger balanced. Miri turns a too-long reinterpreted reference into an error even if never read."),
+        level_note="Trusted: pointer arithmetic in harness/src/bin/views.rs; ledger; Miri/ASan.",
+        runs=c02,
+        min_cases=1500,
+        must_count=["ledger.drops"],
+        exhaustive={"quick": True, "thorough": True},
+        rule=("one case = (check family, flavour, N[, slice length L]); the lattice x L grid is enumerated; non-trivial = N > 0 / L > 0"),
+        explanation="address arithmetic + identity read-back; outcome matrix Ok <=> L == N for the six reinterpretation entry points",
+        assumptions=["N from the lattice; large N sample the write indices (0, 1, N/3, N/2, N-2, N-1)"],
+    ),
     "C15": dict(
         engine="heap",
         technique="recording-global-allocator monitor (block identity, release, new-block size) + Vec/slice reference model + ledger; small-stack child processes for multi-MiB boxed constructors; Miri/ASan",
